@@ -1,5 +1,6 @@
 import SkyllhModel.Proto
 import SkyllhModel.Model.EvSel
+import SkyllhModel.Model.EvSelR7
 import SkyllhModel.Model.EvSelCrit
 import SkyllhModel.Generated.C05
 open Proto EvSel EvSelCrit
@@ -20,6 +21,8 @@ open Proto EvSel EvSelCrit
       enew <id> <srcRa> <srcDec>      construct the method object(s) with manager object <id>
       echange <id> <srcRa> <srcDec>   change_shg_mgr(manager <id>), whose source list is currently the given one
                                       (always refreshes the cached source array)
+      echangechk <acc1> <acc2> <id> <srcRa> <srcDec>   the same call when the argument check of the first / the other
+                                      sub-methods accepts (1) or rejects (0): -> raised | ok (chainChangeChecked, two-phase)
         inc    N | <src list>/<evt list>          (incoming src_evt_idxs; only used in mode S)
         method dec:<delta> | ra:<delta> | box:<delta> | all | psifunc | angerr:<a>:<b>:<floor>
                several methods = left-nested `&` chain; none (mode T only) = no event selection
@@ -29,6 +32,14 @@ open Proto EvSel EvSelCrit
       isargsort <keys> <sigma>   -> 1 iff sigma is an admissible np.argsort(keys) (permutation, keys non-decreasing)
       argsort <keys>             -> np.argsort(keys, kind='stable')
       batch <B> <K> <n>     -> rows of batchedMask with rowOf k = [k, k, ...] marker bits (k odd)
+
+    readers of the stored table (round 7; <tab> = N (no table stored) | <src list>/<evt list>; array entries are
+    opaque tokens that are passed through; several arrays are separated by `;`, `E` = empty sequence):
+      bsrc <K> <tab> <arr>      -> broadcast_sources_array_to_values_array: entries, `u` = never written | ERR:<kind>
+      bsrcs <K> <tab> <arrs>    -> broadcast_sources_arrays_to_values_arrays
+      bsel <tab> <arrs>         -> broadcast_selected_events_arrays_to_values_arrays
+      vmask <K> <tab> <bits>    -> get_values_mask_for_source_mask (bits comma separated 0/1)
+      incmask <K> <n> <tab>     -> EventSelectionMethod.create_src_evt_mask: rows `r<bits>` | ERR (index outside the shape)
 -/
 
 structure Ev where
@@ -98,6 +109,21 @@ def fNat (n : Nat) : String := toString n
 def fmtPairs (P : Pairs) : String :=
   s!"src:{fListD fNat (P.map Prod.fst)} evt:{fListD fNat (P.map Prod.snd)}"
 
+def fErr : ConsErr → String
+  | .noTable => "ERR:noTable"
+  | .badLength => "ERR:badLength"
+  | .badIndex => "ERR:badIndex"
+
+def pArrs (s : String) : List (List String) :=
+  if s == "E" then [] else (s.splitOn ";").map (pList id)
+
+def fOpt : Option String → String
+  | none => "u"
+  | some x => x
+
+def fArrs {α} (f : α → String) (xs : List (List α)) : String :=
+  if xs.isEmpty then "E" else String.intercalate ";" (xs.map (fListD f))
+
 structure St where
   tdm : TdmObj Ev
   esm : EsmObj Src
@@ -105,12 +131,20 @@ structure St where
 def mkSrcs (sra sdec : String) : List Src :=
   ((pList pF sra).zip (pList pF sdec)).map fun p => { ra := p.1, dec := p.2 }
 
+/-- a manager object holding `K` sources and the given table (the events are not read by the readers) -/
+def mkObj (k tab : String) : TdmObj Ev :=
+  { events := [], srcEvtIdxs := parseInc tab, nSources := pN k, nEvents := 0 }
+
 def answerRun (st : St) (line : String) : St × String :=
   match tokens line with
   | ["hnew"] => ({ st with tdm := TdmObj.fresh }, "ok")
   | ["enew", id, sra, sdec] => ({ st with esm := { shgId := pN id, srcArr := mkSrcs sra sdec } }, "ok")
   | ["echange", id, sra, sdec] =>
     ({ st with esm := st.esm.changeShgMgr false (pN id) (mkSrcs sra sdec) }, "ok")
+  | ["echangechk", a1, a2, id, sra, sdec] =>
+    -- change_shg_mgr on an intersection whose sub-methods accept (1) / reject (0) the manager: two-phase check
+    let r := chainChangeChecked true (pB a1) (pB a2) (st.esm, st.esm) (pN id) (mkSrcs sra sdec)
+    ({ st with esm := r.1.1 }, if r.2 then "raised" else "ok")
   | "run" :: sra :: sdec :: era :: edec :: eae :: epsi :: efv :: mode :: inc :: meths =>
     let srcs : Array Src := (if mode == "E" then st.esm.srcArr else mkSrcs sra sdec).toArray
     let K := srcs.size
@@ -133,7 +167,8 @@ def answerRun (st : St) (line : String) : St × String :=
         let nev := parts.getD 2 "N"
         let argsort : Option (List Ev → List Nat) :=
           if perm == "N" then none else some (fun _ => pList pN perm)
-        let nEv : Option Nat := if nev == "N" then none else some (pN nev)
+        -- `N` = argument not given: the default extracted from the current source
+        let nEv : Option Nat := if nev == "N" then Gen.C05.nEventsDefault else some (pN nev)
         let self : TdmObj Ev := if mode.startsWith "H:" then st.tdm else TdmObj.fresh
         -- `tdm.index_field_name = ...` (property setter), then `tdm.initialize_trial(...)`
         match (self.setIndexField argsort).initialize K evs (chainAll ms) nEv with
@@ -143,6 +178,29 @@ def answerRun (st : St) (line : String) : St × String :=
           (if mode.startsWith "H:" then { st with tdm := s } else st, ans)
   | ["isargsort", ks, sg] => (st, fB (isArgsort (pList pF ks) (pList pN sg)))
   | ["argsort", ks] => (st, fListD fNat (argsortStable (pList pF ks)))
+  | ["bsrc", k, tab, arr] =>
+    (st, match (mkObj k tab).readSources (pList id arr) with
+      | .error e => fErr e
+      | .ok r => fListD fOpt r)
+  | ["bsrcs", k, tab, arrs] =>
+    (st, match (mkObj k tab).readSourcesMany (pArrs arrs) with
+      | .error e => fErr e
+      | .ok r => fArrs fOpt r)
+  | ["bsel", tab, arrs] =>
+    (st, match (mkObj "0" tab).readSelected (pArrs arrs) with
+      | .error e => fErr e
+      | .ok r => fArrs id r)
+  | ["vmask", k, tab, bits] =>
+    (st, match (mkObj k tab).readValuesMask (pList pB bits) with
+      | .error e => fErr e
+      | .ok r => fListD fB r)
+  | ["incmask", k, n, tab] =>
+    (st, match parseInc tab with
+      | none => "bad-op"
+      | some P =>
+        match incMask (pN k) (pN n) P with
+        | none => "ERR"
+        | some rows => fListD (fun row => "r" ++ String.join (row.map fB)) rows)
   | ["batch", b, k, n] =>
     let rows := batchedMask (pN b) (pN k) (pN n) (fun k => List.replicate (pN n) (k % 2 == 1))
     (st, fListD (fun row => "r" ++ String.join (row.map fB)) rows)
